@@ -67,6 +67,12 @@ func (m *Model) applyCase(d *Doc) {
 		if !c.Upper && !c.Lower {
 			continue
 		}
+		if path == "Any" {
+			if sv, ok := d.Any.(string); ok {
+				d.Any = canonCase(c, sv)
+			}
+			continue
+		}
 		p := docPathIndex[path]
 		if p.Class != ClsStr {
 			continue
